@@ -5,6 +5,7 @@ package server
 import (
 	"net"
 	"sort"
+	"time"
 
 	"github.com/fatedier/frp/pkg/util/verifhook"
 	"github.com/fatedier/frp/server/controller"
@@ -22,6 +23,7 @@ type VerifCtl struct {
 	PoolLen   int      `json:"pool_len"`
 	PoolCap   int      `json:"pool_cap"`
 	PoolCount int      `json:"pool_count"`
+	LastPing  int64    `json:"last_ping_ns"`
 }
 
 // VerifState is a read-only projection of the server tables.
@@ -36,7 +38,7 @@ func (ctl *Control) verifProject() VerifCtl {
 	ctl.mu.RLock()
 	defer ctl.mu.RUnlock()
 	c := VerifCtl{ID: verifhook.ID(ctl), RunID: ctl.runID, LoginRun: ctl.loginMsg.RunID, User: ctl.loginMsg.User,
-		PortsUsed: ctl.portsUsedNum, PoolLen: len(ctl.workConnCh), PoolCap: cap(ctl.workConnCh), PoolCount: ctl.poolCount, Proxies: []string{}}
+		PortsUsed: ctl.portsUsedNum, PoolLen: len(ctl.workConnCh), PoolCap: cap(ctl.workConnCh), PoolCount: ctl.poolCount, Proxies: []string{}, LastPing: ctl.lastPing.Load().(time.Time).UnixNano()}
 	for n := range ctl.proxies {
 		c.Proxies = append(c.Proxies, n)
 	}
